@@ -468,6 +468,11 @@ fn parse_enum_variant(
                         RustType::try_from(&f.ty)?
                     };
 
+                    // as for the fields of a struct
+                    if serde_flatten(&f.attrs) {
+                        return Err(ParseError::SerdeFlattenNotAllowed);
+                    }
+
                     let has_default = serde_default(&f.attrs);
                     let decorators = get_field_decorators(&f.attrs);
 
